@@ -361,7 +361,7 @@ func genSeqProg(t *rapid.T) seqProg {
 	if p.VarKind == kindEvent {
 		maxVal = 1
 	}
-	ops := []string{"set", "set", "set", "compute", "default", "sub", "sub", "sub", "unsub"}
+	ops := []string{"set", "set", "init", "compute", "default", "sub", "sub", "sub", "unsub"}
 	if p.VarKind == kindEvent {
 		ops = append(ops, "trigger", "trigger")
 	}
@@ -379,7 +379,7 @@ func genSeqProg(t *rapid.T) seqProg {
 	actGen := rapid.Custom(func(t *rapid.T) seqAction {
 		a := seqAction{Op: rapid.SampledFrom(ops).Draw(t, "op")}
 		switch a.Op {
-		case "set", "default":
+		case "set", "init", "default":
 			a.Arg = rapid.IntRange(0, maxVal).Draw(t, "v")
 		case "compute":
 			a.Arg = rapid.IntRange(-1, 2).Draw(t, "k")
